@@ -501,22 +501,23 @@ func parseLit(tok string) (uint64, error) {
 // One-shot solving of a standalone script with an external solver binary.
 
 type OneShot struct {
-	Name string
-	Argv []string
+	Name   string
+	Argv   []string
+	Header string
 }
 
 var (
-	Z3Old   = OneShot{"z3-4.8.12", []string{"z3", "-in"}}
-	Z3New   = OneShot{"z3-5.1.0", []string{"z3-new", "-in"}}
-	CVC5    = OneShot{"cvc5", []string{"cvc5", "--lang=smt2", "--produce-models"}}
-	CVC5Int = OneShot{"cvc5-bv-as-int", []string{"cvc5", "--lang=smt2", "--produce-models", "--solve-bv-as-int=sum"}}
+	Z3Old   = OneShot{"z3-4.8.12", []string{"z3", "-in"}, ""}
+	Z3New   = OneShot{"z3-5.1.0", []string{"z3-new", "-in"}, ""}
+	CVC5    = OneShot{"cvc5", []string{"cvc5", "--lang=smt2", "--produce-models"}, "(set-logic ALL)\n"}
+	CVC5Int = OneShot{"cvc5-bv-as-int", []string{"cvc5", "--lang=smt2", "--produce-models", "--solve-bv-as-int=sum"}, "(set-logic ALL)\n"}
 )
 
 // Solve runs the script (assertions already included) with check-sat and
 // optional get-value for vars; returns result, model and raw output.
 func (o OneShot) Solve(asserts []*term.Term, vars []*term.Term, timeout time.Duration) (Result, term.Env, string, time.Duration) {
 	start := time.Now()
-	hdr := "(set-option :produce-models true)\n"
+	hdr := "(set-option :produce-models true)\n" + o.Header
 	script := term.Script(asserts, hdr)
 	script += "(check-sat)\n"
 	// declare vars not occurring in asserts so that get-value works
